@@ -480,7 +480,22 @@ run_forked(const Cmd &cmd, FILE *out)
 	double wall_ms = (wall_now() - t0) * 1000.0;
 	std::string line;
 	size_t      nl = res.find('\n');
-	if (!timed_out && nl != std::string::npos && res[0] == '{') {
+	bool sanit = res.compare(0, 21, "{\"status\":\"sanitizer\"") == 0;
+	if (!timed_out && nl != std::string::npos && res[0] == '{' && sanit) {
+		// the child died in a sanitizer report after emitting its choices
+		line = res.substr(0, nl);
+		line.erase(line.size() - 1);
+		line.replace(0, 21, "{\"status\":\"crash\"");
+		char b[160];
+		snprintf(b, sizeof(b), ",\"scenario\":\"%s\",\"exit\":%d,\"signal\":%d,\"wall_ms\":%.2f,\"stderr\":\"",
+		    cmd.scenario.c_str(), WIFEXITED(status) ? WEXITSTATUS(status) : -1,
+		    WIFSIGNALED(status) ? WTERMSIG(status) : 0, wall_ms);
+		line += b;
+		if (err.size() > 12000)
+			err = err.substr(0, 12000);
+		json_escape_to(line, err);
+		line += "\"}";
+	} else if (!timed_out && nl != std::string::npos && res[0] == '{') {
 		line = res.substr(0, nl);
 		// append wall time and scenario
 		line.erase(line.size() - 1); // drop '}'
